@@ -148,6 +148,65 @@ def run(c):
     stats["fuzz_ops"] += sstats["ops"]
     stats["crashes"] += sstats["crashes"]
 
+    # ---- (1c) state that outlives one call: every short sequence of mode switches in an open composition, then a change of
+    # schema (processors destroyed, notifier connections must be gone), then keys; and the switcher on a one-schema deployment
+    grid, n_seq = c1.mode_grid(3 if quick else 4)
+    per = 16 * 40          # 40 sessions of 16 lines per chunk
+    chunks = [grid[i:i + per] for i in range(0, len(grid), per)]
+
+    def renumber(lines):
+        out, k = [], 0
+        for l in lines:
+            if l.startswith("destroy "):
+                out.append("destroy %d" % k)
+                k += 1
+            else:
+                out.append(l)
+        return out
+
+    def grid_job(j):
+        i, lines = j
+        d = os.path.join(c.work, "g%d" % i)
+        shutil.copytree(base, d)
+        lines = renumber(lines)
+        rc, out = run_script(exe, d, lines, 300)
+        shutil.rmtree(d, ignore_errors=True)
+        return lines, rc, out
+
+    stats["mode_grid_sequences"] = n_seq
+    with ThreadPoolExecutor(WORKERS) as ex:
+        for lines, rc, out in ex.map(grid_job, enumerate(chunks)):
+            stats["fuzz_ops"] += len(lines)
+            if rc != 0:
+                stats["crashes"] += 1
+                fr = frame_of(out)
+                nrun = len(re.findall(r"^@\d+ ", out, re.M))
+                # the session being executed when the process died, alone
+                starts = [k for k, l in enumerate(lines) if l == "new"]
+                s0 = max([k for k in starts if k < max(nrun, 1)] or [0])
+                one = lines[s0:s0 + 16]
+                one = [l if not l.startswith("destroy ") else "destroy 0" for l in one]
+                d = os.path.join(c.work, "gshrink")
+
+                def crashes_with(t):
+                    shutil.rmtree(d, ignore_errors=True)
+                    shutil.copytree(base, d)
+                    rc2, out2 = run_script(exe, d, t, 120)
+                    return rc2 != 0 and frame_of(out2) == fr
+                small = sc.ddmin(one, crashes_with, budget=30) if crashes_with(one) else lines[:max(nrun, 2)]
+                c.report("C01:crash:%s" % fr, "mode switches followed by a schema change crash / trip a sanitizer / hang in %s" % fr,
+                         {"kind": "impl-violation", "mode": "fuzz", "schema": "vs_full", "table": [], "ops": small, "log": out[-2500:]})
+    single = c1.make_single_schema_workspace(os.path.join(c.work, "single"))
+    rc, out = run_script(exe, single, c1.short_history("vs_full"), 120)
+    stats["fuzz_ops"] += len(c1.short_history("vs_full"))
+    stats["single_schema_deployment"] = "ok" if rc == 0 else frame_of(out)
+    if rc != 0:
+        stats["crashes"] += 1
+        fr = frame_of(out)
+        nrun = len(re.findall(r"^@\d+ ", out, re.M))
+        c.report("C01:crash:%s:single-schema" % fr, "a deployment with one schema in schema_list crashes / hangs in %s" % fr,
+                 {"kind": "impl-violation", "mode": "single-schema", "ops": c1.short_history("vs_full")[:max(nrun, 2)], "log": out[-2500:]})
+
     # ---- (2) malformed schemas: every node type-mutated, one at a time
     jobs = []
     for which in ("vs_full.schema.yaml", "default.yaml"):
@@ -209,10 +268,11 @@ def run(c):
                          vlib.STD_TRUSTED + ["translators gen/c01_api.py, gen/keymaps.py", "ASan/UBSan runtimes (support for the search only)"])
     cov.update({"evaluations": stats["fuzz_ops"] + stats["mutants"] * len(hist),
                 "distinct_nontrivial": stats["fuzz_histories"] + stats["mutants"],
-                "rule": "(1) seeded API fuzz histories with boundary values on a stock-like schema (luna_pinyin structure, all stock components, tiny dictionaries) and a synthetic one; (2) single type-mutations (10 kinds) of every node of the schema and of default.yaml, each deployed and driven by a fixed 90-call history; all under ASan+UBSan with a watchdog; non-trivial = each distinct history / mutant (all are)",
+                "rule": "(1) seeded API fuzz histories with boundary values on a stock-like schema (luna_pinyin structure, all stock components, tiny dictionaries) and a synthetic one; (1b) the structured histories of the session checks; (1c) every sequence of at most 3 (quick) / 4 (thorough) mode switches in an open composition followed by a change of schema, and the fixed history on a one-schema deployment; (2) single type-mutations (10 kinds) of every node of the schema and of default.yaml, each deployed and driven by a fixed 90-call history; all under ASan+UBSan with a watchdog; non-trivial = each distinct history / mutant (all are)",
                 "samples": stats["samples"], "fuzz_histories": stats["fuzz_histories"], "fuzz_ops": stats["fuzz_ops"],
                 "mutants_run": stats["mutants"], "mutants_total": total_mutants, "op_kind_distribution": stats["kinds"],
-                "crashes_or_hangs": stats["crashes"], "api_entries_generated": genout.get("entries"),
+                "crashes_or_hangs": stats["crashes"], "mode_grid_sequences": stats.get("mode_grid_sequences"),
+                "single_schema_deployment": stats.get("single_schema_deployment"), "api_entries_generated": genout.get("entries"),
                 "session_functions": genout.get("session_functions"), "free_pairs": genout.get("pairs"),
                 "proof_failures": audit["failures"]})
     c.cov = cov
@@ -230,6 +290,8 @@ def replay(c, r):
                            env=dict(os.environ, **vlib.SAN_ENV))
             os.replace(os.path.join(base, r["file"]) + ".m", os.path.join(base, r["file"]))
         rc, out = run_script(exe, base, r["ops"], 90)
+    elif r.get("mode") == "single-schema":
+        rc, out = run_script(exe, c1.make_single_schema_workspace(os.path.join(c.work, "single")), r["ops"], 120)
     elif "ops" in r:
         rc, out = run_script(exe, base, sc.table_lines([tuple(x) for x in r.get("table", [])]) + r["ops"])
     else:
